@@ -1,7 +1,7 @@
 (* C16 — property theorems only (statements + [exact]); proofs are in Proofs.v / VrfProofs.v / VrfInst.v. *)
 From Coq Require Import List NArith ZArith Znumtheory Bool.
 From V.Base Require Import Hex BigEndian.
-From V.C16 Require Import Model Proofs FloatProofs Vrf VrfProofs VrfInst.
+From V.C16 Require Import Model Proofs FloatProofs Vrf VrfProofs VrfInst VrfEll.
 Import ListNotations.
 Local Open Scope Z_scope.
 
@@ -109,6 +109,25 @@ Print Assumptions C16_qn_range_float.
 Theorem C16_f64_int_exact : forall n, 0 <= n < 2 ^ 53 -> f64_int n = n.
 Proof. exact f64_int_small. Qed.
 Print Assumptions C16_f64_int_exact.
+
+(* totality.  validateProve's "totalStake" is the NUMBER of registered proposers with normal status
+   (MinerManager.GetProposerTotalStake returns len(proposers)), workingMiners the number of distinct
+   proposers of the last 10 hours; above the difficulty switch height difficulty = totalStake /
+   workingMiners, and if that is 0 calQn panics (big.Rat.Quo by a zero step) *)
+Theorem C16_qn_zero_ratio_panic_refuted : exists p (pi : bytes) h wm ts,
+  0 < ts < wm /\ thr p < h /\ validate_float p pi h wm ts = VR false QNPanic.
+Proof. exact validate_zero_ratio_panics. Qed.
+Print Assumptions C16_qn_zero_ratio_panic_refuted.
+
+(* the exact guard: outside "workingMiners > totalStake above the switch height" (and with
+   difficulty * PotentialProposalMax inside int64) the rule never panics, accepted or not *)
+Theorem C16_qn_total_guarded : forall p (pi : bytes) h wm ts ok,
+  0 < pp_min p <= pp_max p -> 0 <= wm ->
+  ~ (wm <> 0 /\ thr p < h /\ ts < wm) ->
+  difficulty p h wm ts * pp_max p < 2 ^ 63 ->
+  validate_float p pi h wm ts <> VR ok QNPanic /\ validate_exact p pi h wm ts <> VR ok QNPanic.
+Proof. exact validate_no_panic. Qed.
+Print Assumptions C16_qn_total_guarded.
 
 (* qn is a function of (first 32 bytes of the padded proof, height, working miners, total stake) *)
 Theorem C16_qn_function : forall p (pi pi' : bytes) h wm ts,
@@ -252,6 +271,47 @@ Theorem C16_bit_mutation_input_partial : forall (W : World) (x t : Z) (m m' : Ms
   query W Y' p m' <> query W Y p m /\ Hc4 W (query W Y' p m') = Hc4 W (query W Y p m).
 Proof. exact bit_mutation_input. Qed.
 Print Assumptions C16_bit_mutation_input_partial.
+
+(* ---------------- the headline theorems at the real group order ---------------- *)
+(* W25519 (VrfEll.v): ell is the constant the code reduces modulo, proved prime (Pocklington
+   certificate in Base/PrimeEd25519Ell.v), challenge range 2^128: no primality hypothesis is left *)
+Theorem C16_W25519_order : ell W25519 = Z.of_N ell25519 /\ cbound W25519 = 2 ^ 128 /\ 2 < ell W25519.
+Proof. exact W25519_ell. Qed.
+Print Assumptions C16_W25519_order.
+
+Theorem C16_complete_at_ell25519 : forall (x t : Z) (m : Msg W25519),
+  verify W25519 (pubkey W25519 x) (prove W25519 x t m) m = true.
+Proof. exact (complete W25519). Qed.
+Print Assumptions C16_complete_at_ell25519.
+
+Theorem C16_s_reduced_mod_ell25519 : forall (Y Gm : G W25519) (c s j : Z) (m : Msg W25519),
+  verify W25519 Y (Gm, c, s + j * Z.of_N ell25519) m = verify W25519 Y (Gm, c, s) m /\
+  output_enc W25519 (Gm, c, s + j * Z.of_N ell25519) = output_enc W25519 (Gm, c, s).
+Proof. exact (s_reduced_mod_ell W25519). Qed.
+Print Assumptions C16_s_reduced_mod_ell25519.
+
+Theorem C16_output_unique_cofactor_at_ell25519 : forall (x : Z) (m : Msg W25519) (p1 p2 : proof W25519),
+  verify W25519 (pubkey W25519 x) p1 m = true -> verify W25519 (pubkey W25519 x) p2 m = true ->
+  output_cof W25519 p1 = output_cof W25519 p2 \/ lucky_hit W25519 x m p1 \/ lucky_hit W25519 x m p2.
+Proof. exact (output_cof_unique_or_lucky W25519). Qed.
+Print Assumptions C16_output_unique_cofactor_at_ell25519.
+
+Theorem C16_output_unique_encoding_guarded_at_ell25519 :
+  forall (x : Z) (m : Msg W25519) (p1 p2 : proof W25519),
+  smul W25519 (ell W25519) (output_enc W25519 p1) = zero W25519 ->
+  smul W25519 (ell W25519) (output_enc W25519 p2) = zero W25519 ->
+  verify W25519 (pubkey W25519 x) p1 m = true -> verify W25519 (pubkey W25519 x) p2 m = true ->
+  output_enc W25519 p1 = output_enc W25519 p2 \/ lucky_hit W25519 x m p1 \/ lucky_hit W25519 x m p2.
+Proof. exact (fun x m p1 p2 => output_enc_unique_in_subgroup W25519 x m p1 p2 (proj2 (proj2 W25519_ell))). Qed.
+Print Assumptions C16_output_unique_encoding_guarded_at_ell25519.
+
+Theorem C16_one_answerable_challenge_at_ell25519 : forall (x : Z) (H Gm U V : G W25519) (c1 c2 : Z),
+  smul W25519 (Z.of_N ell25519) H = zero W25519 ->
+  smul W25519 8 Gm <> smul W25519 (8 * x) H ->
+  answerable W25519 (pubkey W25519 x) H Gm U V c1 -> answerable W25519 (pubkey W25519 x) H Gm U V c2 ->
+  (Z.of_N ell25519 | c1 - c2).
+Proof. exact (one_answerable W25519). Qed.
+Print Assumptions C16_one_answerable_challenge_at_ell25519.
 
 (* Non-vacuity: a World exists (all group/hash hypotheses hold for Z/40), an honest proof in it
    verifies, and the guard of the qn theorem is met by an accepted proof with qn = 2. *)
